@@ -234,9 +234,10 @@ func init() {
 			r := cfgRng(seed)
 			mn, mx := tierOps(tier, 8, 30)
 			ctl := sampleCtl(r)
+			ctl.TCPConfigMap = r.IntN(3) == 0 // (ConfigMap based TCP services are rebuilt by every sync)
 			rc := &RunConfig{Property: "C11", Profile: "quiet-renotify", Seed: seed, Ctl: ctl, MapOrder: r.IntN(2) == 0, Lagfree: r.IntN(2) == 0, MidSched: r.IntN(2) == 0}
-			w := map[string]int{"renotify": 20, "advance": 4, "neutral_update": 12}
-			rc.World, rc.Ops = GenerateRun(seed, GenOptions{Sparse: r.IntN(3) == 0, ExcludeIngressKeys: alwaysExcludedIngressKeys, MinOps: mn, MaxOps: mx,
+			w := map[string]int{"renotify": 20, "advance": 4, "neutral_update": 12, "tcpcm_change": 0}
+			rc.World, rc.Ops = GenerateRun(seed, GenOptions{Sparse: r.IntN(3) == 0, ExcludeIngressKeys: alwaysExcludedIngressKeys, MinOps: mn, MaxOps: mx, TCPConfigMap: ctl.TCPConfigMap,
 				QuiesceEvery: 4, KeysPerRun: pickInt(r, 4, 8), W: w})
 			return rc
 		}})
